@@ -28,6 +28,7 @@ theorem compS_length : ∀ (s : Stmt) (ctx : Ctx) (pc cur : Nat), (compS ctx pc 
   | pass => intros; rfl
   | ev => intros; rfl
   | ret => intros; rfl
+  | yieldS => intros; rfl
   | raise => intros; rfl
   | reraise => intros; rfl
   | raiseX ln fm => intro ctx pc cur; cases fm <;> rfl
